@@ -94,6 +94,7 @@ class Hooks:
     def accepted_invalid(self, run, o, m): pass
     def refused_add_changed_schedule(self, run, accepted, n_before): pass
     def fork_diverged(self, run, detail): pass
+    def solver_returned_partial_schedule(self, schedule): pass
     def before(self, run): pass
     def after(self, run, o, m): pass
     def end(self, run): pass
@@ -297,10 +298,23 @@ def run_consumer(ctx, case, hooks: Hooks):
 
         rule = rng.choice(["shortest_processing_time", "first_come_first_served",
                            "most_work_remaining", "most_operations_remaining", "random"])
+        if rng.random() < 0.25:
+            # a user filter that may let nothing through: the solver either refuses (raises) or
+            # returns a complete schedule - never a partial one as if it were the result
+            fs = {"names": [rng.choice(gen.FILTER_NAMES[1:]), gen.HOLDING_FILTER], "form": "custom"}
+            ctx.count("solver_runs_with_a_filter_that_may_empty_the_list")
         solver = DispatchingRuleSolver(
             dispatching_rule=rule, machine_chooser=rng.choice(["first", "random"]),
             ready_operations_filter=gen.make_filter(fs))
-        solver.solve(instance)
+        try:
+            S = solver.solve(instance) if rng.random() < 0.5 else solver(instance)
+        except Exception:
+            if gen.HOLDING_FILTER not in ((fs or {}).get("names") or []):
+                raise
+            S = None
+            ctx.count("solver_refused_an_emptying_filter")
+        if S is not None and not S.is_complete():
+            hooks.solver_returned_partial_schedule(S)
     elif kind == "env":
         from job_shop_lib.graphs import build_disjunctive_graph, build_agent_task_graph
         from job_shop_lib.reinforcement_learning import SingleJobShopGraphEnv
